@@ -29,10 +29,11 @@ func ObserveNote(vs []*int64) *scorch.VerifEvent {
 }
 
 type ditem struct {
-	files []uint64 // merge_start: ids of merged segment files already written
-	term  cf.T
-	epoch uint64 // for introducer items: the epoch they published
-	intro bool
+	fileMerge bool     // merge_start / merge abort: file merge (merger goroutine) or in-memory merge (persister)
+	files     []uint64 // merge_start: ids of merged segment files already written
+	term      cf.T
+	epoch     uint64 // for introducer items: the epoch they published
+	intro     bool
 }
 
 // DiskTerms linearises the full event stream of one or more sessions of a disk-backed scorch
@@ -82,7 +83,7 @@ func DiskTerms(evs []*scorch.VerifEvent, n *strace.Namer, ver strace.VersionOf) 
 		// ... but never before an earlier step of the merging goroutine itself: a merge that was
 		// abandoned before this one was planned
 		for i := len(out) - 1; i >= pos; i-- {
-			if strings.HasPrefix(string(out[i].term), "(XMergeAbort") {
+			if strings.HasPrefix(string(out[i].term), "(XMergeAbort") && out[i].fileMerge == it.fileMerge {
 				pos = i + 1
 				break
 			}
@@ -136,7 +137,7 @@ func DiskTerms(evs []*scorch.VerifEvent, n *strace.Namer, ver strace.VersionOf) 
 			}
 		case "merge_start":
 			t, _ := strace.TermOf(e, n, ver)
-			it := ditem{term: cf.App("XCore", t)}
+			it := ditem{term: cf.App("XCore", t), fileMerge: e.FileMerge}
 			stats["merge_start"]++
 			// the merged files were written before this event; the model learns the new segment ids
 			// from TMergeStart, so their XFile events follow it (a merged file whose merge is never
@@ -207,7 +208,7 @@ func DiskTerms(evs []*scorch.VerifEvent, n *strace.Namer, ver strace.VersionOf) 
 				}
 			case "merge_abandoned":
 				if len(e.Args) > 0 {
-					push(ditem{term: cf.App("XMergeAbort", cf.U(e.Args[0]))})
+					push(ditem{term: cf.App("XMergeAbort", cf.U(e.Args[0])), fileMerge: len(e.Args) > 1 && e.Args[1] == 1})
 					stats["merge_abandoned"]++
 				}
 			case "persist_before_commit":
